@@ -274,6 +274,38 @@ fn check_sequence_spelled<F: Family>(pkts: Vec<F::Packet>, big: bool, spelled: b
         ctx.label("header-first-block-decode");
     }
 
+    // the other public header-first path, as a server that sniffs the protocol version uses it: Header::decode_async,
+    // then the per-type `X::decode_async` on the stream itself (for CONNECT alternately `Connect::decode_async` and
+    // `Protocol::decode_async` + `Connect::decode_with_protocol`); packet types without a body decoder go through
+    // build_empty_packet / block_decode. Each call takes its own frame and leaves the following packets alone.
+    {
+        use mqtt_proto::PollHeader;
+        let mut rd: &[u8] = &stream;
+        for (i, p) in pkts.iter().enumerate() {
+            let before = rd.len();
+            let h = match futures_lite::future::block_on(F::header_decode_async(&mut rd)) {
+                Ok(h) => h,
+                Err(e) => viol!("Header::decode_async at packet {} of {} failed: {:?}", i + 1, n, e),
+            };
+            let variant = ((i + n) & 1) as u8;
+            let q = match F::body_level_decode_stream(h, &mut rd, variant) {
+                Some(Ok(q)) => q,
+                Some(Err(e)) => viol!("the body-level decoder of packet {} of {} (variant {}, reading from the stream with the following packets behind it) failed: {:?}; expected {}", i + 1, n, variant, e, fam::render(p)),
+                None => match h.build_empty_packet() {
+                    Some(q) => q,
+                    None => match h.block_decode(&mut rd) {
+                        Ok(q) => q,
+                        Err(e) => viol!("Header::block_decode on packet {} of {} failed: {:?}", i + 1, n, e),
+                    },
+                },
+            };
+            ensure!(q == *p, "header-first decoding through the body-level decoders (variant {}) returned {} for packet {} of {}, expected {}", variant, fam::render(&q), i + 1, n, fam::render(p));
+            ensure!(before - rd.len() == encs[i].len(), "header-first decoding through the body-level decoder (variant {}) consumed {} bytes for packet {} of {} ({}), which is {} bytes long", variant, before - rd.len(), i + 1, n, fam::render(p).chars().take(60).collect::<String>(), encs[i].len());
+        }
+        ensure!(rd.is_empty(), "header-first decoding through the body-level decoders left {} bytes of the stream", rd.len());
+        ctx.label("header-first-body-level-decoders");
+    }
+
     let mut types: Vec<usize> = pkts.iter().map(|p| F::type_index(p)).collect();
     types.sort_unstable();
     types.dedup();
@@ -429,6 +461,7 @@ pub fn run(env: &mut Env) -> RunResult {
     for s in ["c08.sequence.v3", "c08.sequence.v5"] {
         env.require(s, "contains-body-less-packet");
         env.require(s, "header-first-block-decode");
+        env.require(s, "header-first-body-level-decoders");
         env.require(s, "sequence-length:1");
         env.require(s, "sequence-length:5");
         if env.thorough() {
